@@ -29,6 +29,10 @@ type ModelRunOptions struct {
 	Names     Names
 	StackOpts stacks.Options
 	Tolerate  Tolerate
+	// Remap returns the layout to reopen with at a remap step.
+	Remap func(cur stacks.Layout) stacks.Layout
+	// AfterMaint is called after a maintenance step (gc/reopen/remap) with the (possibly new) instance.
+	AfterMaint func(s *Session, inst *stacks.Instance, op prog.Op, o *ev.Outcome) (stop bool)
 	// Setup is called once with the fresh session (e.g. to switch model modes for known findings).
 	Setup func(s *Session)
 	// Final is called when the program ended (also after a violation).
@@ -50,6 +54,7 @@ type ProgStats struct {
 	DedupReuse     bool
 	Reopens        int
 	GCs            int
+	Remaps         int
 	Flushes        int
 	written        map[string]int
 	VersioningSets int
@@ -126,7 +131,11 @@ func RunModelProgram(env *ev.Env, c ProgCase, opt ModelRunOptions) (o ev.Outcome
 				return
 			}
 			st.GCs++
-		case prog.OpReopen, prog.OpFlush:
+		case prog.OpReopen, prog.OpFlush, prog.OpRemap:
+			if op.Kind == prog.OpRemap && opt.Remap != nil {
+				layout = opt.Remap(layout)
+				st.Remaps++
+			}
 			if err := inst.Close(); err != nil {
 				inst = nil
 				o.Failf("step %d: close failed: %v", i, err)
@@ -140,6 +149,9 @@ func RunModelProgram(env *ev.Env, c ProgCase, opt ModelRunOptions) (o ev.Outcome
 			}
 			side.S = inst.Storage
 			st.Reopens++
+			if opt.AfterMaint != nil && opt.AfterMaint(s, inst, op, &o) {
+				return
+			}
 		default:
 			if opt.BeforeStep != nil {
 				opt.BeforeStep(s, op)
